@@ -63,6 +63,11 @@ def _refs(s):
         for t in s[3]:
             r += _refs(t)
         return r
+    if s[0] == "lazy":
+        r = [s[2], s[4]]
+        for t in s[3]:
+            r += _refs(t)
+        return r
     return []
 
 
